@@ -1,14 +1,14 @@
 CONSTANTS
   B = 4
-  MemSize = 8
-  PtrVals = {0,1,2}
+  MemSize = 7
+  PtrVals = {0,1}
   DataInit <- DataSmall
   MaxOps = 3
   Dev = "none"
   Gen = FALSE
   NoAls = {TRUE,FALSE}
   Endians = {"le","be"}
-  Menu = {"regs","ld1","ld2","bump","slice","store","delayed","ext"}
+  Menu = {"regs","ld2","bump","slice","store","delayed"}
 INIT Init
 NEXT Next
 INVARIANT Lockstep
